@@ -116,6 +116,15 @@ COMMON_MAIN = r"""
 static int g_mode;
 static int next_file(void) { if (g_next < g_argc && strcmp(g_argv[g_next], "--") != 0) return g_next++; return -1; }
 static int next_session(void) { if (g_next < g_argc && strcmp(g_argv[g_next], "--") == 0) { g_next++; return 1; } return 0; }
+/* mode b: every source is handed over as an in-memory buffer (yy_scan_bytes) instead of a FILE */
+static char *slurp(const char *path, int *len)
+{
+    FILE *f = fopen(path, "rb"); char *p; long n;
+    if (!f) exit(2);
+    fseek(f, 0, SEEK_END); n = ftell(f); fseek(f, 0, SEEK_SET);
+    p = (char *) malloc((size_t) n + 1); *len = (int) fread(p, 1, (size_t) n, f); fclose(f);
+    return p;
+}
 """
 
 MAIN = {
@@ -123,6 +132,8 @@ MAIN = {
 int yywrap(void)
 {
     int k = next_file();
+    if (k >= 0 && g_mode == 'b') { int n; char *p = slurp(g_argv[k], &n); YY_BUFFER_STATE old = YY_CURRENT_BUFFER;
+                                   yy_scan_bytes(p, n); yy_delete_buffer(old); free(p); return 0; }
     if (k >= 0) { FILE *f = fopen(g_argv[k], "rb"); if (!f) exit(2); yyin = f; return 0; }
     return 1;
 }
@@ -131,8 +142,11 @@ int main(int argc, char **argv)
     int v, k;
     g_argc = argc; g_argv = argv; g_next = 2; g_mode = argv[1][1];
     k = next_file();
+    if (g_mode == 'b' && k >= 0) { int n; char *p = slurp(argv[k], &n); yy_scan_bytes(p, n); free(p); }
+    else {
     yyin = k >= 0 ? fopen(argv[k], "rb") : fopen("/dev/null", "rb");
     if (!yyin) return 2;
+    }
     for (;;) {
         while ((v = yylex()) != 0) printf("R %d\n", v);
         printf("R 0\n");
@@ -150,6 +164,8 @@ int main(int argc, char **argv)
 int yywrap(yyscan_t s)
 {
     int k = next_file();
+    if (k >= 0 && g_mode == 'b') { int n; char *p = slurp(g_argv[k], &n); struct yyguts_t *yyg = (struct yyguts_t *) s;
+                                   YY_BUFFER_STATE old = YY_CURRENT_BUFFER; yy_scan_bytes(p, n, s); yy_delete_buffer(old, s); free(p); return 0; }
     if (k >= 0) { FILE *f = fopen(g_argv[k], "rb"); if (!f) exit(2); yyset_in(f, s); return 0; }
     return 1;
 }
@@ -161,7 +177,8 @@ int main(int argc, char **argv)
     f = k >= 0 ? fopen(argv[k], "rb") : fopen("/dev/null", "rb");
     if (!f) return 2;
     if (yylex_init(&s)) return 3;
-    yyset_in(f, s);
+    if (g_mode == 'b' && k >= 0) { int n; char *p = slurp(argv[k], &n); yy_scan_bytes(p, n, s); free(p); }
+    else yyset_in(f, s);
     for (;;) {
         while ((v = yylex(s)) != 0) printf("R %d\n", v);
         printf("R 0\n");
@@ -370,7 +387,7 @@ def eval_stream_case(flex, workdir, case):
                 with open(pth, "wb") as f:
                     f.write(bytes(w))
                 args.append(pth)
-        rc, out, err = run([os.path.join(workdir, "s.exe")] + args, timeout=20, env=case.get('env'))
+        rc, out, err = run([os.path.join(workdir, "s.exe")] + args, timeout=(20 if case.get("env") else 6), env=case.get('env'))
         evs = parse_events(out, bol_obs)
         errs = err.decode(errors="replace")
         if case.get('env'):
